@@ -706,16 +706,21 @@ func (s *Subscription) processModelEvent(event *rescache.ResourceEvent) {
 			}
 		}
 
-		// Check for removing changed references after adding references to avoid unsubscribing to
-		// a resource that is going to be subscribed again because it has moved between properties.
-		for k := range ch {
-			if ov, ok := old[k]; ok && ov.Type == codec.ValueTypeReference {
-				s.removeReference(ov.RID)
+		// Changed references are removed after the new references have been added, to avoid
+		// unsubscribing to a resource that is going to be subscribed again because it has moved
+		// between properties, and not before the event has been sent: until then the client still
+		// holds the old references, and a resource loaded for the event may refer to them.
+		removeOld := func() {
+			for k := range ch {
+				if ov, ok := old[k]; ok && ov.Type == codec.ValueTypeReference {
+					s.removeReference(ov.RID)
+				}
 			}
 		}
 
 		// Quick exit if there are no new unsent subscriptions
 		if !hasUnsent {
+			defer removeOld()
 			// We increase the indirectsent references, otherwise increased when
 			// calling sub.populateResources, in a simple loop, since we have no
 			// new resources to populate.
@@ -763,6 +768,7 @@ func (s *Subscription) processModelEvent(event *rescache.ResourceEvent) {
 				for _, sub := range subs {
 					sub.ReleaseRPCResources()
 				}
+				removeOld()
 
 				s.unqueueEvents(queueReasonLoading)
 			})
